@@ -1059,28 +1059,33 @@ class BooleanExpression(Expression):
         self.expression = expression
 
     def __str__(self) -> str:
-        def _str(expression: Expression, parent_precedence: int) -> str:
-            if isinstance(expression, LogicalAndExpression):
-                precedence = PRECEDENCE_LOGICAL_AND
-                op = "and"
-                left = _str(expression.left, precedence)
-                right = _str(expression.right, precedence)
-            elif isinstance(expression, LogicalOrExpression):
-                precedence = PRECEDENCE_LOGICAL_OR
-                op = "or"
-                left = _str(expression.left, precedence)
-                right = _str(expression.right, precedence)
-            elif isinstance(expression, LogicalNotExpression):
+        def _str(
+            expression: Expression, parent_precedence: int, *, left: bool = False
+        ) -> str:
+            if isinstance(expression, LogicalNotExpression):
                 operand_str = _str(expression.expression, PRECEDENCE_PREFIX)
                 expr = f"not {operand_str}"
-                if parent_precedence > PRECEDENCE_PREFIX:
+                # `not` takes everything to its right as its operand, so it needs
+                # parentheses whenever it is an operand itself.
+                if parent_precedence > 0:
                     return f"({expr})"
                 return expr
-            else:
+
+            operator = _INFIX_OPERATORS.get(type(expression))
+            if operator is None:
                 return str(expression)
 
-            expr = f"{left} {op} {right}"
-            if precedence < parent_precedence:
+            op, precedence = operator
+            left_str = _str(expression.left, precedence, left=True)  # type: ignore
+            right_str = _str(expression.right, precedence)  # type: ignore
+            expr = f"{left_str} {op} {right_str}"
+
+            # Infix operators of equal precedence group to the right.
+            if precedence < parent_precedence or (
+                left
+                and precedence == parent_precedence
+                and precedence > PRECEDENCE_LOGICAL_AND
+            ):
                 return f"({expr})"
             return expr
 
@@ -1574,6 +1579,21 @@ class InExpression(Expression):
 
     def children(self) -> list[Expression]:
         return [self.left, self.right]
+
+
+# Infix operator symbols and precedence by expression class, for `str()`.
+_INFIX_OPERATORS: dict[type[Expression], tuple[str, int]] = {
+    LogicalOrExpression: ("or", PRECEDENCE_LOGICAL_OR),
+    LogicalAndExpression: ("and", PRECEDENCE_LOGICAL_AND),
+    EqExpression: ("==", PRECEDENCE_RELATIONAL),
+    NeExpression: ("!=", PRECEDENCE_RELATIONAL),
+    LeExpression: ("<=", PRECEDENCE_RELATIONAL),
+    GeExpression: (">=", PRECEDENCE_RELATIONAL),
+    LtExpression: ("<", PRECEDENCE_RELATIONAL),
+    GtExpression: (">", PRECEDENCE_RELATIONAL),
+    ContainsExpression: ("contains", PRECEDENCE_MEMBERSHIP),
+    InExpression: ("in", PRECEDENCE_MEMBERSHIP),
+}
 
 
 class LoopExpression(Expression):
